@@ -35,4 +35,18 @@ PROPS = {
         note="Route source injected through Route.Routes (rtnetlink dump not covered); lists longer than K+1 not covered.",
         parts=[part("enum", "internal/plugin", "TestVerifC15")],
     ),
+    "C14": dict(
+        level="exploration", engine="enum",
+        technique="bounded-exhaustive enumeration (all subsets<=K x all permutations of an address pool; all pairs and triples through betterRDNSS) against the documented ranking as a sort key",
+        text="Every address list of up to K entries from a 16-address pool covering class x stability x exclusion-flag, in every order and with three static-server lists, goes through the real wildcard RDNSS plugin (and, in part 'parse', through config.Parse for the static servers); the first server must be the minimum under the documented ranking key. The pairwise relation is checked to be a total order on all pairs and triples of the pool.",
+        note="Address source injected through RDNSS.Addrs; lists longer than K and addresses outside the pool's classes are not covered.",
+        parts=[part("fold", "internal/plugin", "TestVerifC14")],
+    ),
+    "C16": dict(
+        level="exploration", engine="enum",
+        technique="bounded-exhaustive enumeration of (epoch, lifetimes, stanza kind) x all non-decreasing clock-reading sequences around each deadline, through the real parser and Apply, against max(0, epoch+lifetime-t)",
+        text="For 2 epochs x 4 lifetime pairs x static/wildcard prefix/route x deprecated/not, every non-decreasing sequence of up to L clock readings drawn from 10 instants placed at, 1 ns before and 1 ns after each deadline (and before the epoch) is fed through the injected clock; each advertised lifetime must be the remaining time at a reading it took, never increase, never be negative, preferred<=valid; non-deprecated stanzas constant.",
+        note="Clock injected through the plugins' TimeNow field; instants outside the 10-point grid and sequences longer than L are not covered.",
+        parts=[part("enum", "internal/config", "TestVerifC16")],
+    ),
 }
